@@ -300,7 +300,11 @@ func (s *Sub[C]) BulkOutcome(o string, n int) { s.st.Outcomes[o] += n }
 // Report records a failure found by a hot loop for case c.
 func (s *Sub[C]) Report(c C, fp, format string, args ...any) {
 	b, _ := json.Marshal(c)
-	s.st.w.emit(map[string]any{"t": "v", "sub": s.st.Name, "fp": fp, "msg": fmt.Sprintf(format, args...), "case": json.RawMessage(b)})
+	t := "v"
+	if strings.HasPrefix(fp, "harness:") {
+		t = "h"
+	}
+	s.st.w.emit(map[string]any{"t": t, "sub": s.st.Name, "fp": fp, "msg": fmt.Sprintf(format, args...), "case": json.RawMessage(b)})
 }
 
 // Sample stores a case in the evidence samples (bounded).
@@ -369,7 +373,13 @@ func (s *Sub[C]) exec(c C) {
 	if len(r.fails) > 0 {
 		b, _ := json.Marshal(c)
 		for _, f := range r.fails {
-			st.w.emit(map[string]any{"t": "v", "sub": st.Name, "fp": f.FP, "msg": f.Msg, "detail": f.Detail, "case": json.RawMessage(b)})
+			t := "v"
+			if strings.HasPrefix(f.FP, "harness:") {
+				// the check could not decide this case (its own machinery failed): never a
+				// VIOLATION line; the run ends with exit 2
+				t = "h"
+			}
+			st.w.emit(map[string]any{"t": t, "sub": st.Name, "fp": f.FP, "msg": f.Msg, "detail": f.Detail, "case": json.RawMessage(b)})
 		}
 	}
 }
@@ -542,6 +552,7 @@ type violation struct {
 type workerResult struct {
 	subs       []*subState
 	violations []violation
+	harness    []violation
 	ended      bool
 }
 
@@ -596,6 +607,12 @@ func runParent(cfg Config, tier string, seed int64, budget time.Duration) int {
 				harnessErr = true
 			}
 			viols = append(viols, r.violations...)
+			for i, h := range r.harness {
+				harnessErr = true
+				if i < 3 {
+					fmt.Fprintf(os.Stderr, "HARNESS-ERROR property=%s sub=%s %s: %s\n", cfg.ID, h.Sub, h.FP, firstLine(h.Msg))
+				}
+			}
 			for _, s := range r.subs {
 				a := agg[s.Name]
 				if a == nil {
@@ -740,7 +757,7 @@ func runParent(cfg Config, tier string, seed int64, budget time.Duration) int {
 		return 1
 	}
 	if harnessErr {
-		fmt.Fprintln(os.Stderr, "harness error: a worker did not finish cleanly")
+		fmt.Fprintln(os.Stderr, "harness error: the check's own machinery failed (worker died without a journaled case, or HARNESS-ERROR lines above); nothing is claimed for the affected cases")
 		return 2
 	}
 	return 0
@@ -839,6 +856,10 @@ func superviseWorker(bin, variant, tier string, i, n int, budget time.Duration) 
 						var sn string
 						json.Unmarshal(m.Sub, &sn)
 						res.violations = append(res.violations, violation{Sub: sn, FP: m.FP, Msg: m.Msg, Detail: m.Detail, Case: m.Case})
+					case "h":
+						var sn string
+						json.Unmarshal(m.Sub, &sn)
+						res.harness = append(res.harness, violation{Sub: sn, FP: m.FP, Msg: m.Msg, Detail: m.Detail, Case: m.Case})
 					case "s":
 						var s subState
 						if json.Unmarshal(m.Sub, &s) == nil {
